@@ -514,13 +514,23 @@ pub enum ResultWithDeserializedMetadata {
     SchemaChange(SchemaChange),
 }
 
+/// Maximum supported nesting depth of a column type received from the server.
+///
+/// Type descriptions are parsed recursively, so without a limit a malicious or corrupted
+/// frame (a few bytes per nesting level) could overflow the stack.
+pub(crate) const MAX_TYPE_NESTING_DEPTH: usize = 128;
+
 fn deser_type_generic<'frame, 'result, StrT: Into<Cow<'result, str>>>(
     buf: &mut &'frame [u8],
     read_string: fn(&mut &'frame [u8]) -> StdResult<StrT, LowLevelDeserializationError>,
     read_custom_type: fn(&'frame str) -> StdResult<ColumnType<'result>, CustomTypeParseError>,
+    depth: usize,
 ) -> StdResult<ColumnType<'result>, CqlTypeParseError> {
     use ColumnType::*;
     use NativeType::*;
+    if depth > MAX_TYPE_NESTING_DEPTH {
+        return Err(CqlTypeParseError::NestingTooDeep(MAX_TYPE_NESTING_DEPTH));
+    }
     let id =
         types::read_short(buf).map_err(|err| CqlTypeParseError::TypeIdParseError(err.into()))?;
     Ok(match id {
@@ -555,13 +565,24 @@ fn deser_type_generic<'frame, 'result, StrT: Into<Cow<'result, str>>>(
                 buf,
                 read_string,
                 read_custom_type,
+                depth + 1,
             )?)),
         },
         0x0021 => Collection {
             frozen: false,
             typ: CollectionType::Map(
-                Box::new(deser_type_generic(buf, read_string, read_custom_type)?),
-                Box::new(deser_type_generic(buf, read_string, read_custom_type)?),
+                Box::new(deser_type_generic(
+                    buf,
+                    read_string,
+                    read_custom_type,
+                    depth + 1,
+                )?),
+                Box::new(deser_type_generic(
+                    buf,
+                    read_string,
+                    read_custom_type,
+                    depth + 1,
+                )?),
             ),
         },
         0x0022 => Collection {
@@ -570,6 +591,7 @@ fn deser_type_generic<'frame, 'result, StrT: Into<Cow<'result, str>>>(
                 buf,
                 read_string,
                 read_custom_type,
+                depth + 1,
             )?)),
         },
         0x0030 => {
@@ -586,7 +608,7 @@ fn deser_type_generic<'frame, 'result, StrT: Into<Cow<'result, str>>>(
             for _ in 0..fields_size {
                 let field_name =
                     read_string(buf).map_err(CqlTypeParseError::UdtFieldNameParseError)?;
-                let field_type = deser_type_generic(buf, read_string, read_custom_type)?;
+                let field_type = deser_type_generic(buf, read_string, read_custom_type, depth + 1)?;
 
                 field_types.push((field_name.into(), field_type));
             }
@@ -606,7 +628,12 @@ fn deser_type_generic<'frame, 'result, StrT: Into<Cow<'result, str>>>(
                 .into();
             let mut types = Vec::with_capacity(len);
             for _ in 0..len {
-                types.push(deser_type_generic(buf, read_string, read_custom_type)?);
+                types.push(deser_type_generic(
+                    buf,
+                    read_string,
+                    read_custom_type,
+                    depth + 1,
+                )?);
             }
             Tuple(types)
         }
@@ -619,7 +646,12 @@ fn deser_type_generic<'frame, 'result, StrT: Into<Cow<'result, str>>>(
 fn deser_type_borrowed<'frame>(
     buf: &mut &'frame [u8],
 ) -> StdResult<ColumnType<'frame>, CqlTypeParseError> {
-    deser_type_generic(buf, |buf| types::read_string(buf), CustomTypeParser::parse)
+    deser_type_generic(
+        buf,
+        |buf| types::read_string(buf),
+        CustomTypeParser::parse,
+        0,
+    )
 }
 
 fn deser_type_owned(buf: &mut &[u8]) -> StdResult<ColumnType<'static>, CqlTypeParseError> {
@@ -627,6 +659,7 @@ fn deser_type_owned(buf: &mut &[u8]) -> StdResult<ColumnType<'static>, CqlTypePa
         buf,
         |buf| types::read_string(buf).map(ToOwned::to_owned),
         |type_str| CustomTypeParser::parse(type_str).map(|t| t.into_owned()),
+        0,
     )
 }
 
